@@ -164,7 +164,7 @@ def check_neox(rng, res, idx):
 
 
 def plan(tier, seed):
-    n = tier_value(tier, 1200, 40000)
+    n = tier_value(tier, 1200, 200000)
     shards = tier_value(tier, 6, 14)
     per = n // shards
     return [dict(first=i * per, count=per, budget_s=tier_value(tier, 40, 300)) for i in range(shards)]
